@@ -603,7 +603,14 @@ class Session(Gen):
             # a call is in flight
             self.op("send %s send %s" % (h, hx(amqp.client_only_samples(ch)["queue.declare"])))
             self.op("ev %d" % ch)
+        pending = self.rng.random() < 0.35
+        if pending:
+            # a submission is still in the channel's queue when the server's close is read (socket
+            # events come first in a batch): the wake-up for it arrives after the slot is gone
+            self.op("send %s send %s" % (h, hx(amqp.body(ch, b"in-queue"))))
         self.feed([chan_close(ch, self.rng.choice([404, 406, 403]), self.rng.choice(["NOT_FOUND - no queue 'x'", "", "é"]))])
+        if pending:
+            self.op("ev %d" % ch)
         self.op("recv %s -" % h)
         del self.handles[h]
         self.alloc.remove(ch)
